@@ -128,4 +128,31 @@ theorem run_padding (htol : 0 < tol) (n M : Nat) (hM : n ≤ M) (vs : List E) (h
   rw [hidx]
   exact colAt_sameView A tol htol M n v (hvs v hv) _ (by omega) b2
 
+/-- **a larger `max_iters` never executes fewer steps**: the stopping predicates of the two runs coincide
+on the common range (the buffers have the same entries), so the run with the smaller cap stops first -/
+theorem run_idx_mono (htol : 0 < tol) (n M M' : Nat) (hM : M ≤ M') (vs : List E) (hvs : ∀ v ∈ vs, v ≠ 0) :
+    (run (⇑A) n M ((tol : ℝ) : 𝕜) vs).idx ≤ (run (⇑A) n M' ((tol : ℝ) : 𝕜) vs).idx := by
+  obtain ⟨_, a2, _, _, a5⟩ := run_spec (⇑A) n M ((tol : ℝ) : 𝕜) vs
+  obtain ⟨b1, b2, _, b4, _⟩ := run_spec (⇑A) n M' ((tol : ℝ) : 𝕜) vs
+  rw [b1] at b4
+  by_contra hlt
+  push Not at hlt
+  have hk : (run (⇑A) n M' ((tol : ℝ) : 𝕜) vs).idx < min M n := lt_of_lt_of_le hlt a2
+  have hkM : (run (⇑A) n M' ((tol : ℝ) : 𝕜) vs).idx ≤ M := le_trans (le_of_lt hk) (min_le_left _ _)
+  have t := a5 _ hlt
+  have hP : (vs.map (fun v => colAfter (⇑A) ((tol : ℝ) : 𝕜) (run (⇑A) n M' ((tol : ℝ) : 𝕜) vs).idx
+        (initCol (α := 𝕜) M v))).any (isLarge ((tol : ℝ) : 𝕜) (run (⇑A) n M' ((tol : ℝ) : 𝕜) vs).idx) =
+      (vs.map (fun v => colAfter (⇑A) ((tol : ℝ) : 𝕜) (run (⇑A) n M' ((tol : ℝ) : 𝕜) vs).idx
+        (initCol (α := 𝕜) M' v))).any (isLarge ((tol : ℝ) : 𝕜) (run (⇑A) n M' ((tol : ℝ) : 𝕜) vs).idx) := by
+    rw [List.any_map, List.any_map]
+    apply any_congr_mem
+    intro v hv
+    have hs := colAt_sameView A tol htol M M' v (hvs v hv) _ hkM (by omega)
+    exact isLarge_sameView tol _ _ _ (hs.2.1 1 0) hs.2.2
+  rw [hP] at t
+  rcases b4 with b4 | b4
+  · have : min M n ≤ min M' n := min_le_min_right n hM
+    omega
+  · rw [b4] at t; exact Bool.false_ne_true t
+
 end Arnoldi
